@@ -11,7 +11,7 @@ TIE = ("hand-written model (FcpptModel/Model/C08.lean) + differential correspond
 RULE = ("digest ops enumerate a sub-domain on both sides: offs/ats (all positions in a margin of 3 around the grid), ranges (all sup in a "
         "window for one min), nexts (all current positions in a window for one (min,sup)), refsubs/clamps (all signed positions from -1 "
         "to extent+1), interps (all integral parts with every neighbour in range x all quarter fractions); exhaustive over N in {1,2,3} and all "
-        "sizes with extents 0..4 in both tiers (thorough: refsubs with margin 2 for N<=2, more sampled ops); "
+        "sizes with extents 0..4 in both tiers (thorough: refsubs with margin 2, histories of 3 calls on every configuration, more sampled ops); "
         "single ops (mk, mkc, all, refall, fill, out, map, resize, apply, rows, cmp) over all sizes / pairs of sizes; regs = every legal history of "
         "<= 3 special-member calls over three objects; random larger sizes (extents to 9) sampled. The harness additionally demands (result line "
         "replaced by a *-mismatch token): const = mutable ranges / at_optional, lvalue = rvalue overloads on a cell type with a visible move "
@@ -269,12 +269,12 @@ def batches(rng, tier):
     ops = []
     for n in (1, 2, 3):
         ds = alld[n]
-        m = 2 if (thorough and n < 3) else 1
+        m = 2 if thorough else 1
         for i, d in enumerate(ds):
             ops += [f"refsubs {L(d)} {i % 3} {L(mn)} {m}" for mn in tuples([-m] * n, [x + m + 1 for x in d])]
     yield Batch("sub-range-clamped-all", ops, exhaustive=True,
                 note="pos_ref_range(grid, clamped_min smin, clamped_sup_signed ssup) for all signed smin, ssup in [-1, extent+1]^N on every size "
-                     "(thorough: margin 2 for N<=2): positions and cells read, const = mutable range, and the cells after writing through the references")
+                     "(thorough: margin 2): positions and cells read, const = mutable range, and the cells after writing through the references")
     # ---- clamp helpers on every size
     ops = [f"clamps {L(d)} {mg}" for d in everyd + bigd]
     yield Batch("clamp-all-sizes", ops, exhaustive=True, note=f"clamped_min, clamped_sup_signed, clamped_sup for all signed positions in [-{mg}, extent+{mg}]^N")
@@ -347,8 +347,9 @@ def batches(rng, tier):
                 note="three objects of different sizes (same content, different shape included), every legal history of <= 2 calls out of "
                      "default ctor, copy ctor, move ctor, copy assignment, move assignment, member swap, free swap over all (dst, src) incl. dst = src")
     if wide:
-        ops = [f"regs {regcfg[2]} {'.'.join(pr)}" for pr in reg_programs(3)]
-        yield Batch("special-members-all-histories-3", ops, exhaustive=True, note="every legal history of exactly 3 calls on the 2-D configuration")
+        ops = [f"regs {cfg} {'.'.join(pr)}" for cfg in (regcfg if thorough else regcfg[2:3]) for pr in reg_programs(3)]
+        yield Batch("special-members-all-histories-3", ops, exhaustive=True,
+                    note="every legal history of exactly 3 calls on the 2-D configuration (thorough: on all five configurations)")
     r = rng.fork("regs")
     ops = []
     for _ in range(8000 if thorough else 1500):
